@@ -36,7 +36,7 @@ ASSUMPTIONS = ["observer instances never outlive their own time-out, victims are
                "global endpoints (metrics) are excluded from the comparison",
                "the oracle is self-relative: a defect that is identical in the interleaved and the solo run does not surface here"]
 FAULT_KINDS = ["request_interleaving", "victim_expiry", "victim_stop", "preemption"]
-PROBES = ["scenarios_from_files", "session_on_its_own_time_grid", "instances_created_by_one_batch_request", "server_level_run_traffic", "same_settings_on_two_instances", "victim_swept_by_observer_request", "victim_stopped", "settings_differ_between_instances", "shared_base_model",
+PROBES = ["creation_in_flight_with_another_instances_request", "scenarios_from_files", "session_on_its_own_time_grid", "instances_created_by_one_batch_request", "server_level_run_traffic", "same_settings_on_two_instances", "victim_swept_by_observer_request", "victim_stopped", "settings_differ_between_instances", "shared_base_model",
           "adapter_files_compared"]
 EXHAUSTIVE = {"quick": False, "thorough": False}
 
@@ -168,6 +168,20 @@ def generate(spec):
     if spec.get("conc"):
         case["conc"] = {"sched": {"kind": "random", "seed": rng.randrange(2**32), "p": rng.choice([0.02, 0.1])}}
         if rng.random() < 0.5:
+            case["conc"]["with_creation"] = True
+            # ... and a late-comer whose creation is in flight while the first instance is stopped: afterwards the stopped one
+            # is gone and the new one works
+            tmax = ops[-1]["t_us"]
+            knew = len(insts)
+            insts.append({"role": "observer", "timeout": {"hours": 12}})
+            ops.append({"t_us": tmax + 999, "inst": -2, "op": "metrics"})      # (keeps the creation from being paired with what came before)
+            ops.append({"t_us": tmax + 1000, "inst": knew, "op": "create"})
+            ops.append({"t_us": tmax + 1001, "inst": 0, "op": "stop_instance"})
+            ops.append({"t_us": tmax + 3000, "inst": 0, "op": "session_results"})
+            ops.append({"t_us": tmax + 4000, "inst": knew, "op": "begin_session", "scenarios": ["base"], "equations": eqs[:2], "settings": {}})
+            ops.append({"t_us": tmax + 5000, "inst": knew, "op": "run_step", "settings": {}})
+            ops.append({"t_us": tmax + 6000, "inst": 0, "op": "keep_alive"})
+        if rng.random() < 0.5:
             case["conc"]["narrow"] = True
             case["conc"]["sched"]["p"] = rng.choice([0.2, 0.4])
     return case
@@ -262,7 +276,7 @@ def _run(case, only=None, log=None, res=None, conc=None):
     out = {}
     files = {}
     wcfg = {"model": cfg["model"], "adapter": cfg.get("adapter"), "shared_base": cfg.get("shared_base"), "scenario_files": cfg.get("scenario_files"),
-            "threads": "auto" if conc else "serial"}
+            "threads": "auto" if conc else "serial", "factory_yield": bool(conc and conc.get("with_creation"))}
     with ServerWorld(wcfg, log, res) as w:
         w.boot()
         ids = {}
@@ -281,6 +295,8 @@ def _run(case, only=None, log=None, res=None, conc=None):
             if pair is not None:
                 n2, o2 = pair
                 o2 = dict(o2)
+                if o2["op"] in ("create", "create_batch"):
+                    o2["timeout"] = case["instances"][o2["inst"]]["timeout"]
                 w.clock.set(max(w.clock.now_us, o["t_us"]))
                 box = {}
 
@@ -295,11 +311,17 @@ def _run(case, only=None, log=None, res=None, conc=None):
                     sp = dict(conc["sched"])
                     sp["seed"] = (sp.get("seed", 0) * 1000003 + n) % (2**32)
                     pol = make_policy(sp)
+                if "create" in (o["op"], o2["op"]):
+                    # (a creation pair is deterministic: the creation starts, the other request is served while the new instance's
+                    #  bptk is being built - the hand-over placed in the factory -, the creation finishes)
+                    pol = make_policy({"kind": "default"})
                 # one case in two places the pre-emption points inside the state adapter only: the two saves then really overlap
                 sched = Scheduler(pol, TRACE[-1:] if (conc.get("narrow") and cfg.get("adapter")) else TRACE, log=log)
                 with sched:
                     try:
-                        rr = run_tasks(sched, [c1, c2])
+                        # (the task created last runs first: a creation goes first, so that the other request is served while the
+                        #  new instance's bptk is being built)
+                        rr = run_tasks(sched, [c2, c1] if o["op"] == "create" and o2["op"] != "create" else [c1, c2])
                     except Deadlock:
                         res.violate("C16.deadlock", {"ops": [n, n2]})
                         rr = []
@@ -380,7 +402,12 @@ def _fate(case):
                 continue
             fate[j] = n
         if o["op"] == "stop_instance" and j not in fate:
-            fate[j] = n + 1
+            if case["config"].get("adapter"):
+                fate[j] = n + 1
+            else:
+                # (without an adapter nothing can bring a stopped instance back: it is refused from here on, with and without
+                #  the other instances - its answers are compared in full)
+                fate[j] = 10**9
         last[j] = o["t_us"]
     return fate
 
@@ -400,9 +427,18 @@ def execute(case):
                     and (a["inst"] >= 0 or b["inst"] >= 0):
                 pairs.add(n)
                 n += 2
+            elif case["conc"].get("with_creation") and a["inst"] != b["inst"] and a["inst"] >= 0 and b["inst"] >= 0 \
+                    and sorted([a["op"] == "create", b["op"] == "create"]) == [False, True] and "create_batch" not in (a["op"], b["op"]):
+                # one instance is being created (its bptk is being built, which takes a while) while a request of ANOTHER instance
+                # - a step, a stop - is served: none of the two is the other's business
+                pairs.add(n)
+                n += 2
             else:
                 n += 1
-        conc = {"sched": case["conc"].get("sched"), "explicit": case["conc"].get("explicit"), "pairs": pairs, "narrow": case["conc"].get("narrow")}
+        conc = {"sched": case["conc"].get("sched"), "explicit": case["conc"].get("explicit"), "pairs": pairs, "narrow": case["conc"].get("narrow"),
+                "with_creation": case["conc"].get("with_creation")}
+        if case["conc"].get("with_creation") and any(case["ops"][n]["op"] == "create" or case["ops"][n + 1]["op"] == "create" for n in pairs):
+            res.probe("creation_in_flight_with_another_instances_request")
         # both requests of a concurrent pair are in flight at the same virtual instant
         case = copy.deepcopy(case)
         for n in pairs:
@@ -473,7 +509,7 @@ def shrink(case):
         # make the schedules of the concurrent pairs explicit, so that the replay file needs no PRNG
         r = execute(case)
         c = copy.deepcopy(case)
-        c["conc"] = {"explicit": r.extra.get("conc_explicit", {})}
+        c["conc"] = {"explicit": r.extra.get("conc_explicit", {}), "with_creation": case["conc"].get("with_creation"), "narrow": case["conc"].get("narrow")}
         yield c
     if case.get("conc") and case["conc"].get("explicit"):
         for n, lst in case["conc"]["explicit"].items():
